@@ -100,6 +100,13 @@ def tir_range_of_local(F, root, node):
                         if ln is not None:
                             return (0, ln)
     if cl is None:
+        # the variable of `for n in a..b` with evaluable bounds (an immutable binding: the pattern is a plain `n`)
+        for f in tir.walk(root):
+            if f.get("k") == "For" and f["pat"].get("k") == "Bind" and f["pat"].get("id") == n.get("id") and "Mut" not in (f["pat"].get("mode") or "").replace("Not", ""):
+                r = const_range(F, f["iter"])
+                if r and r[0] is not None and r[1] is not None:
+                    return r
+    if cl is None:
         # the index of `for (i, x) in ARRAY.into_iter().enumerate()` / `.iter().enumerate()`: 0..len(ARRAY)
         for f in tir.walk(root):
             if f.get("k") == "For" and f["pat"].get("k") == "Tuple" and f["pat"]["pats"] and f["pat"]["pats"][0].get("k") == "Bind" and f["pat"]["pats"][0].get("id") == n.get("id"):
@@ -264,6 +271,11 @@ def slice_to_position(F, root, n):
             q = m["cond"]["pat"]
             if q.get("k") == "TupleStruct" and (q.get("path") or "").endswith("Some") and q["pats"][0].get("k") == "Bind" and q["pats"][0].get("id") == end.get("id") and any(y is n for y in tir.walk(m["then"])):
                 init = m["cond"]["init"]
+        elif m.get("k") == "MethodCall" and m["method"] in ("map", "map_or", "map_or_else", "and_then") and (m["recv"].get("ty") or "").startswith("std::option::Option<usize"):
+            # `position(..).map_or(d, |x| &B[..x])`: x is the Some payload inside the closure
+            cl = strip(m["args"][-1]) if m.get("args") else {}
+            if cl.get("k") == "Closure" and len(cl.get("params", [])) == 1 and cl["params"][0].get("k") == "Bind" and cl["params"][0].get("id") == end.get("id") and any(y is n for y in tir.walk(cl["body"])):
+                init = m["recv"]
         if init is not None:
             p0 = strip(init)
             if p0.get("k") == "MethodCall" and p0["method"] == "position" and (declared(p0) or "").endswith("Iterator::position"):
